@@ -8,6 +8,7 @@ from sa.loader import norm_text
 from checks._gf_common import run_all, report, TRUSTED as _T
 
 LEVEL = "proof"
+_DE = "cm_colors.core.color_metrics.calculate_delta_e_2000"
 TRUSTED = _T
 EXPLANATION = (
     "Same guard-fact verification, for: (a) binary_search_lightness / gradient_descent_oklch return None or a colour v with "
@@ -58,4 +59,18 @@ _run_own = run
 def run(project, chk):      # noqa: F811  (borrowed rules first: an established violation outlives a later inconclusive rule)
     from checks._borrow import borrow
     borrow(project, chk, "C11", {"L1", "L2", "L3", "L4"}, "D7", "the yardstick of every tolerance, calculate_delta_e_2000, is CIEDE2000 (C11's closed form): a wrong term makes 'within dE 5.0' mean something else")
+    # D8: a memo table in the yardstick's call closure is transparent only if its key is injective in what the value depends on
+    from sa.memo import memo_findings
+    chk.rule("D8", "calculate_delta_e_2000 and everything it calls: a value stored in module-level state is keyed by an injective function of all it was computed from (else the distance of one pair of colours is another pair's)")
+    dfi = project.func(_DE)
+    closure, finds = memo_findings(project, _DE)
+    for verdict, fi, node, d, msg in finds:
+        if verdict == "collision":
+            chk.fail("D8", fi.short, norm_text(node), project.loc(fi.module, node), f"memo table {d}: {msg}: two different colours share an entry, so a tolerance test can be answered with another colour's distance")
+        elif verdict == "ok":
+            chk.ok("D8", f"{project.loc(fi.module, node)} {fi.short}", f"memo table {d}: {msg}", "key expanded to the parameters; tuple / mixed-radix injectivity")
+        else:
+            chk.not_decided.append(f"D8: {project.loc(fi.module, node)} {fi.short}: memo table {d}: {msg}")
+    if not finds:
+        chk.ok("D8", f"{project.loc(dfi.module, dfi.node)} {dfi.short}", f"the {len(closure)} functions in the distance routine's call closure store nothing in module-level state", "effect summaries closed over the call graph")
     _run_own(project, chk)
